@@ -222,7 +222,7 @@ fn bodies_for_reset(qs: &[Qubit]) -> Vec<Vec<Instruction>> {
         out.push(vec![Instruction::Fence(Fence { qubits: vec![q1.clone()] })]);
         out.push(vec![Instruction::Delay(Delay { duration: one(), frame_names: vec![], qubits: vec![q1.clone()] })]);
         out.push(vec![Instruction::Reset(Reset { qubit: Some(q0.clone()) })]);
-        // kinds that mention qubits through a frame but do NOT count as using them
+        // frame updates and SWAP-PHASES count too (since fix a86534e; before it they did not)
         out.push(vec![Instruction::SetPhase(SetPhase { frame: fr.clone(), phase: one() })]);
         out.push(vec![Instruction::SwapPhases(SwapPhases { frame_1: fr.clone(), frame_2: fr.clone() })]);
         // calibration definitions count, header and body
